@@ -149,6 +149,7 @@ var replayAliases = map[string]string{
 	"C10/escape-model-ext": "C10/escape-model", "C11/formats-2byte": "C11/formats",
 	"C01/formats-2byte": "C01/programs", "C01/indexed": "C01/programs",
 	"C03/formats-2byte": "C03/programs", "C03/indexed": "C03/programs",
+	"C01/join-long": "C01/join", "C03/join-long": "C03/join",
 }
 
 // findReplayer resolves a section name: exact, alias, or the longest registered prefix
